@@ -169,7 +169,7 @@ Definition run_t (i : sx) (sch : list tlabel) (na nb : nat) : sx :=
    observed; by timeout_loses_nothing / recv_sequence the calls that return must deliver exactly what a single sequence of
    calls without timeout delivers:
    input  = L [A 300; case]   (case: oracle = what the peer sent, then eof)
-   output = L [results up to and including the first ConnectionAborted] *)
+   output = L [results up to and including the first ConnectionAborted, then the result of one more call] *)
 Fixpoint until_aborted {P} (rs : list (rres P)) : list (rres P) :=
   match rs with
   | [] => []
@@ -182,7 +182,8 @@ Section RunE.
   Variable M : machine (option bytes) C.
   Definition run_e2e (c0 : C) (o : oracle) (client : bool) : sx :=
     let '(rs, _, _) := run_calls M Async (linit c0) o (repeat None (S (S (oracle_bytes o)))) in
-    L (map res_sx (until_aborted (map (fun ro => if client then client_convert (fst ro) else fst ro) rs))).
+    (* ... and one more call after the first end-of-stream: it reports it again (eof_sticky) *)
+    L (map res_sx (until_aborted (map (fun ro => if client then client_convert (fst ro) else fst ro) rs) ++ [RecvAborted])).
 End RunE.
 
 Definition run_e (i : sx) : sx :=
